@@ -98,7 +98,7 @@ def main():
     m = {
         'version': 1,
         'setup_cmd': './check --setup',
-        'hooks': {'guard': 'DARR_DSIM', 'enable': 'no source hooks: all seams are outside /repo (sandbox directory, RLIMIT_FSIZE, rebinding Array._checkarrayforappend in the harness process, sys.settrace, /proc/self/fd)',
+        'hooks': {'guard': 'DARR_DSIM', 'enable': 'no source hooks: all seams are outside /repo (sandbox directory, RLIMIT_FSIZE, rebinding Array._checkarrayforappend in the harness process, builtins.open/io.open replaced for one access, watched iterables, sys.settrace, sys.addaudithook, /proc/self/fd and /proc/self/maps)',
                   'baseline_off_cmd': 'cd /repo && /venv/bin/python -m pytest -ra -q -p no:cacheprovider --timeout=900 --continue-on-collection-errors',
                   'source_commits': [], 'add_only': True},
         'engines': [{'name': 'dsim', 'path': '/verif/dsim', 'serves_properties': BUILT,
